@@ -282,7 +282,9 @@ func vC06Director(t *testing.T, out *vEmitter, r *rand.Rand) {
 				xfp := []string{"", "https", "http", "javascript"}[r.Intn(4)]
 				xfu := []string{"", "/fwd", "/oauth2/start", "//evil.com", "/fwd?q=1"}[r.Intn(5)]
 				// (including application paths that merely begin with the characters of the proxy prefix)
-				target := []string{"/", "/page?a=b", "/oauth2/sign_in", "/oauth2/start?x=1", "/deep/page", "/oauth2x", "/oauth2-docs/page?x=1", "/oauth2.html", "/oauth2"}[r.Intn(9)]
+				target := []string{"/", "/page?a=b", "/oauth2/sign_in", "/oauth2/start?x=1", "/deep/page", "/oauth2x", "/oauth2-docs/page?x=1", "/oauth2.html", "/oauth2",
+					// escapes a re-encoding would change: reserved characters, an escaped unreserved one, lower-case hex
+					"/files/reports%2F2024/summary?x=1", "/a%3Ab/c%40d", "/p%2fq", "/%7Euser/%41", "/x%2Bq%24/%26%2C%3B%3D?k=%2F"}[r.Intn(14)]
 				tq := target
 				if rd != "" {
 					sep := "?"
